@@ -1608,9 +1608,13 @@ func c10LexerEOF(p *Prog, r *Report) {
 // length fact for a constant index, or the strings.Index contract).
 
 func c10Bounds(p *Prog, r *Report) {
-	const rule = "R10.4-bounds"
+	boundsRule(p, r, "R10.4-bounds", map[string]bool{pTypes: true}, 30)
+}
+
+// boundsRule proves every index and slice expression of the functions in pkgs to be in bounds (see R10.4c above).
+func boundsRule(p *Prog, r *Report, rule string, pkgs map[string]bool, floor int) {
 	scope := func(f *ssa.Function) bool {
-		return fnPkgPath(f) == pTypes && len(f.Blocks) > 0
+		return pkgs[fnPkgPath(f)] && len(f.Blocks) > 0
 	}
 	e := newIvEngine(p, scope)
 	n := 0
@@ -1856,7 +1860,7 @@ func c10Bounds(p *Prog, r *Report) {
 			})
 		}
 	}
-	r.Check(n >= 30, rule, "sites", "-", itoa(n)+" index/slice bounds in the text decoders", "expected at least 30 index/slice sites, found "+itoa(n))
+	r.Check(n >= floor, rule, "sites", "-", itoa(n)+" index/slice bounds analysed", "expected at least "+itoa(floor)+" index/slice sites, found "+itoa(n))
 }
 
 // lenLowerBound: the least length seq can have at block b according to the dominating comparisons of len(seq) with
